@@ -129,6 +129,7 @@ func (e *Exec) invokeMethod(st *State, fr *Frame, c *ssa.CallCommon, recv Value,
 		for i := 0; i < sig.Params().Len(); i++ {
 			names = append(names, sig.Params().At(i).Name())
 		}
+		st.Trace = append(st.Trace, "call:"+key)
 		res := e.byContract(st, fr, key, ct, names, append([]Value{recv}, args...), resultType(c), instr)
 		e.setResult(fr, ret, res, isDefer)
 		return nil, false
@@ -349,6 +350,21 @@ func (e *Exec) byContract(st *State, fr *Frame, key string, ct *Contract, names 
 		post.vars[k] = v
 	}
 	post.bindResult(res)
+	// named results of the callee
+	if cfn := e.prog.funcs[key]; cfn != nil {
+		rs := cfn.Signature.Results()
+		if vt, ok := res.(VTuple); ok {
+			for i := 0; i < rs.Len() && i < len(vt.E); i++ {
+				if n := rs.At(i).Name(); n != "" && n != "_" {
+					post.vars[n] = vt.E[i]
+				}
+			}
+		} else if res != nil && rs.Len() == 1 {
+			if n := rs.At(0).Name(); n != "" && n != "_" {
+				post.vars[n] = res
+			}
+		}
+	}
 	for _, en := range ct.Ensures {
 		if en.Try {
 			continue // not established: never assumed by callers
@@ -359,6 +375,7 @@ func (e *Exec) byContract(st *State, fr *Frame, key string, ct *Contract, names 
 			defer func() {
 				if r := recover(); r != nil {
 					if ce, ok := r.(contractError); ok && (strings.HasPrefix(ce.msg, "unknown identifier") || strings.HasPrefix(ce.msg, "unknown qualified identifier")) {
+						e.skippedEnsures[fmt.Sprintf("%s: %s (%s)", key, en.Src, ce.msg)] = true
 						return
 					}
 					panic(r)
